@@ -247,4 +247,10 @@ def standin_tableau_measure(tier, seed):
 
     return f(tier, seed)
 standin_tableau_measure.prop = "C02"
-STANDINS = [standin_born, standin_born_scenarios, standin_tableau_measure]
+def standin_sampling_statistics(tier, seed):
+    """repeated sampling of a state with every kind of seed (shared with C13): repetitions and independent qubits are independent draws"""
+    from contracts.C13_standins import standin_sampling_statistics as f
+
+    return f(tier, seed)
+standin_sampling_statistics.prop = "C02"
+STANDINS = [standin_born, standin_born_scenarios, standin_tableau_measure, standin_sampling_statistics]
